@@ -24,6 +24,8 @@ pub enum Move {
     StackFault(usize),
     /// one forward step with the instruction budget exhausted: the step is cancelled
     InsnFault,
+    /// the host makes sure recording is on (it is): must change nothing
+    ReEnable,
 }
 
 #[derive(Clone, Debug)]
@@ -477,6 +479,14 @@ fn run_walk(case: &Case, st: &mut Stats) -> Outcome {
             }
             Move::StackFault(k) => w.faulted(st, Some(*k), allow_floor)?,
             Move::InsnFault => w.faulted(st, None, allow_floor)?,
+            Move::ReEnable => {
+                let before = proj(&w.xs);
+                w.xs.set_recording_enabled(true);
+                st.count("probe.recording_enabled_again_mid_walk");
+                if let Some((what, d)) = proj_diff(&before, &proj(&w.xs)) {
+                    return Err(Violation::new("C02.host", format!("re-enable:{}", what), format!("making sure recording is on changed the machine state: {}", d)));
+                }
+            }
             Move::Compile(src) => {
                 if w.dirty {
                     continue;
@@ -641,7 +651,7 @@ impl Engine for Reverse {
                     if rng.chance(3, 4) {
                         walk.push(Move::StackFault(rng.below(2)));
                     } else {
-                        walk.push(Move::InsnFault);
+                        walk.push(if rng.chance(1, 3) { Move::ReEnable } else { Move::InsnFault });
                     }
                     pos = (pos + 1).min(total + 1);
                 }
@@ -750,6 +760,7 @@ impl Engine for Reverse {
                 Move::Compile(s) => crate::jobj! {"compile" => s.clone()},
                 Move::StackFault(k) => crate::jobj! {"stackfault" => *k},
                 Move::InsnFault => crate::jobj! {"insnfault" => true},
+                Move::ReEnable => crate::jobj! {"reenable" => true},
             })
             .collect();
         crate::jobj! {
@@ -776,6 +787,8 @@ impl Engine for Reverse {
                 walk.push(Move::StackFault(k as usize));
             } else if m.get("insnfault").is_some() {
                 walk.push(Move::InsnFault);
+            } else if m.get("reenable").is_some() {
+                walk.push(Move::ReEnable);
             } else {
                 return Err("bad walk move".into());
             }
